@@ -2969,6 +2969,8 @@ static int scan_delim_string(struct scanner_s *scanner) {
                         /* look ahead for whitespace */
                         if (METACLASS_OF(c, scanner) != WS_META) {
                             /* the current character is part of the value */
+                            /* (looking ahead may have refilled, moved or replaced the buffer) */
+                            top = scanner->buffer + scanner->buffer_limit;
                             continue;
                         }
                     } else if (scanner->next_char - scanner->text_start == 2) {
